@@ -109,6 +109,8 @@ def perturb_same_class(rng, A, cls, rel=0.3):
         v = rng.standard_normal((n, 2)) + (1j * rng.standard_normal((n, 2)) if cp else 0)
         B = A * rng.uniform(0.5, 2.0) + rel * np.linalg.norm(A, 2) / n * (v @ v.conj().T)
         return (B + B.conj().T) / 2
+    if cls == "saddle":      # symmetric indefinite with positive diagonal: stays so under a positive factor
+        return A * rng.uniform(0.5, 2.0)
     if cls in ("sym", "csym"):
         return A * rng.uniform(0.5, 2.0) * rng.choice([-1, 1])
     if cls == "herm":
